@@ -126,7 +126,6 @@ func runDRules(w *World, r *Run, which ...string) {
 
 func res0(e Event) *Term { return res(e, 0) }
 
-
 // d3TilePath runs the path engine on the source of tlog.Tile.Path and parses what it returns with the same
 // template parser and the same conditions the C18 rules apply to the client: the layout the rules call "the
 // reference" is thereby the one the dependency's source has, not a transcription of it.
